@@ -522,7 +522,8 @@ func e2eWitnesses(mode int) []*e2eScenario {
 			out = append(out, mk("tls0", exp, nil, env3, false, "0", e2eOKResp(exp)))
 			// a bare host option: transport security is on by default
 			out = append(out, mk("tls0", exp, []c20Item{{kind: 'E', s: e2ePlaceholder(p)}}, noenv("-", "-"), false, "0", e2eOKResp(exp)))
-			// with the certificate variable: delivered over TLS (otlploggrpc: known finding F39, handshake fails)
+			// with the certificate variable: delivered over TLS by all six exporters (otlploggrpc since the F39 repair,
+			// /repo b14f3c7; the reverted fix is mutants/C20/revert-F39-loggrpc-tls-env.diff)
 			s := mk("tls", exp, nil, env3, false, "0", e2eOKResp(exp))
 			s.tls = true
 			out = append(out, s)
@@ -574,6 +575,34 @@ func e2eMain(t *testing.T, mode int) {
 		if mode == 20 {
 			return
 		}
+		if e2eIsSame(s.gen) {
+			// C13 only: two exports interleaved on ONE exporter (c13_sameexp_test.go)
+			if mode != 13 {
+				return
+			}
+			p := w.partnerSame(s)
+			a, b := s, p
+			if s.role == 'B' {
+				a, b = p, s
+			}
+			for try := 0; try < 3; try++ {
+				ra, rb, ok := w.runIlvSame(a, b)
+				if !ok {
+					continue // the intended schedule was not achieved: run it again
+				}
+				if !ra.built || !rb.built {
+					return
+				}
+				if only != 'B' {
+					line(a, ra)
+				}
+				if only != 'A' {
+					line(b, rb)
+				}
+				return
+			}
+			return
+		}
 		p := w.partner(s)
 		if p == nil {
 			return
@@ -618,6 +647,13 @@ func e2eMain(t *testing.T, mode int) {
 		ri := &vRand{s: vSeed() ^ 0x11f7}
 		for i, k := 0, 30+n/25; i < k; i++ {
 			emitIlv(e2eGenIlv(ri), 0)
+		}
+	}
+	if mode == 13 {
+		// two exports interleaved on the SAME exporter instance, all six exporters, with/without gzip
+		rs := &vRand{s: vSeed() ^ 0x5a3e}
+		for i, k := 0, 36+n/80; i < k; i++ {
+			emitIlv(e2eGenIlvSame(rs, i), 0)
 		}
 	}
 	for i := 0; i < n; i++ {
